@@ -1,6 +1,6 @@
 """C01 — tree links stay a well-formed forest under every mutation history (BaseNode / Node)."""
 from __future__ import annotations
-import random
+import random, zlib
 import core
 from runner import Case
 from props import _store_util as U
@@ -120,6 +120,16 @@ def oracle(case):
         before = after
         if msgs or not U.healthy(nodes):
             break
+    if not msgs and ("corpus" in case.tags or zlib.crc32(case.line.encode()) % 61 == 0):
+        # the same history in a second interpreter started with `python -O` (BIGTREE_CONF_ASSERTIONS unset): the
+        # default configuration must not depend on interpreter flags - every refusal must still be a refusal
+        from props import _twoproc
+        here = U.show_trace(U.run_trace(d)[1])
+        there = _twoproc.call("onO", "props._store_util:worker_eval", d)["trace"]
+        if here != there:
+            k = next((i for i, (a, b) in enumerate(zip(here.split(" ; "), there.split(" ; "))) if a != b), "?")
+            msgs.append(f"under `python -O` (default configuration) the history behaves differently from call #{k} on: "
+                        f"here={here[-200:]} -O={there[-200:]}")
     return msgs
 
 
